@@ -1691,6 +1691,11 @@ func (rn *run) parseClient(form string, res served) clientObs {
 	}
 	statusKeyLeak := func(meta http.Header) {
 		for _, k := range sortedKeys(meta) {
+			if strings.HasPrefix(k, http.TrailerPrefix) {
+				// not a header field: net/http takes such keys as trailers, and only if they are still there when
+				// the handler returns (finish() reads them from the live map)
+				continue
+			}
 			lk := strings.ToLower(k)
 			if strings.HasSuffix(lk, "grpc-status") || strings.HasSuffix(lk, "grpc-message") || strings.HasSuffix(lk, "grpc-status-details-bin") {
 				co.End.Leak = append(co.End.Leak, k)
